@@ -10,7 +10,7 @@ echo '|---|---|---|---|' >> $out
 for d in $(ls -d seeded/C*-* | sort -V); do
   n=$(basename $d); id=${n%%-*}; [ -f $d/SUPERSEDED ] && continue
   extra=""
-  case $n in C09-6) extra="C03";; C04-2) extra="C01";; esac
+  case $n in C09-6) extra="C03";; C09-9) extra="C18";; C04-2) extra="C01";; esac
   for c in $id $extra; do
     r=$(python3 lib/seedtest.py $d/patch.diff $c 2>&1 | head -1)
     ex=$(echo "$r" | sed -n 's/.*exit=\([0-9]*\).*/\1/p'); v=$(echo "$r" | sed -n 's/.*violations=\([0-9]*\).*/\1/p')
